@@ -30,6 +30,20 @@ fn matrix_stimuli(ver: Ver, w: usize) -> Vec<(String, Vec<u8>)> {
     } else {
         v.push(("type15".into(), vec![0xF0, 0x00]));
     }
+    // the same frames with other flag nibbles: which kinds a role may receive does not depend on the flags
+    let base = v.clone();
+    for (n, b) in base {
+        let canon = b[0] & 0x0F;
+        for f in [canon ^ 0x1, canon ^ 0x2, 0x0, 0xF, 0x8] {
+            if f != canon && (b[0] >> 4) != 3 {
+                let mut m = b.clone();
+                m[0] = (m[0] & 0xF0) | f;
+                v.push((format!("{n} flags={f:x}"), m));
+            }
+        }
+    }
+    let mut seen = std::collections::HashSet::new();
+    v.retain(|(_, b)| seen.insert(b.clone()));
     v
 }
 
